@@ -307,6 +307,14 @@ def fold(mod, prop, tier, seed, records, counters, problems, wall) -> int:
                 known_hits.setdefault(f["mech"], []).append((r, f))
             else:
                 violations.append((r, f))
+    dump = os.environ.get("VERIF_DUMP")
+    if dump:
+        with open(dump, "w") as fh:
+            for r, f in violations:
+                fh.write(json.dumps({"id": r["id"], "params": r["params"], "failure": f}) + "\n")
+            for k, hits in known_hits.items():
+                for r, f in hits:
+                    fh.write(json.dumps({"id": r["id"], "params": r["params"], "failure": f, "known": k}) + "\n")
     # ---- replay files
     rdir = os.path.join(HERE, "replay", prop)
     vio_lines = []
